@@ -373,6 +373,13 @@ func (c *Ctx) finish(level, explanation string) int {
 		}
 		return c.obs[i].Key < c.obs[j].Key
 	})
+	if pat := os.Getenv("VERIF_DUMP"); pat != "" {
+		for _, o := range c.obs {
+			if strings.Contains(o.Rule, pat) {
+				fmt.Printf("  dump rule=%s key=%s ok=%v xref=%v at %s: %s\n", o.Rule, o.Key, o.OK, o.XRef, o.Pos, o.Msg)
+			}
+		}
+	}
 	var viol, knownHit, xrefs []Ob
 	discharged, total := 0, 0
 	distinct := map[string]bool{}
